@@ -133,7 +133,7 @@ def expand_doc(doc):
     if doc["t2"] % 3 == 0:
         trees.append({"n": 2 + doc["t2"] % 4, "perm": (doc["t2"] // 4) % NL, "shape": doc["t2"] // 28})
     r = doc["rows"]
-    rows = [r % NL, (r // NL) % NL, (r // 7) % NL][:r % 4]
+    rows = list(range(min(len(labels), 5))) if r % 5 == 0 else [r % NL, (r // NL) % NL, (r // 7) % NL][:r % 4]
     return {"schema": "nexus" if doc["nexus"] else "newick", "labels": labels, "trees": trees, "rows": rows,
             "quote": doc["quote"], "translate": doc["translate"]}
 
@@ -141,7 +141,7 @@ def expand_doc(doc):
 RULES = {
     "mk_tree": MK,
     "mk_tlist": fd(trees=st.lists(fd(**TREE), min_size=0, max_size=3), ns=NSSEL, how=HOW),
-    "mk_matrix": fd(rows=st.lists(LBL, min_size=0, max_size=4), ns=NSSEL, how=HOW),
+    "mk_matrix": fd(rows=st.lists(LBL, min_size=0, max_size=4), ns=NSSEL, how=HOW, partners=B),
     "tl_append": fd(tl=I, t=I, strat=st.sampled_from(["migrate", "migrate", "add"]), unify=st.sampled_from([True, True, False]),
                     insert=B, pos=st.integers(-3, 9), mk=MK, fresh=st.sampled_from([False, False, True])),
     "tl_extend": fd(tl=I, src=SRC, iadd=B),
@@ -179,7 +179,8 @@ RULES = {
     "tree_clone": fd(t=I, ns=NSSEL),
     "tree_from_nodes": fd(t=I, mix=I, ns=NSSEL, give_ns=B),
     "migrate_shared_memo": fd(m=I, ns=NSSEL, unify=st.sampled_from([True, True, False]), extra=st.lists(LBL, min_size=0, max_size=2),
-                              order=B),
+                              order=B, own=st.integers(0, 2), src=st.sampled_from([1, 4, 1, 4, 0, 2, 3, 5, 6]),
+                              rows=st.lists(LBL, min_size=1, max_size=4), partners=B, how=HOW),
     "rename_taxon": fd(n=I, k=I, l=LBL, mode=st.integers(0, 2)),
 }
 
@@ -243,6 +244,17 @@ def nest(items, shape):
         return "(%s,%s)" % (items[0], items[1])
     cut = 1 + shape % (len(items) - 1)
     return "(%s,%s)" % (nest(items[:cut], shape // 3), nest(items[cut:], shape // 7))
+
+
+def with_partners(rows):
+    """label indices + the pool labels that differ from them only in case (equal under str.lower())."""
+    out = []
+    for li in rows:
+        out.append(li)
+        for k, x in enumerate(POOL):
+            if k != li and x.lower() == POOL[li].lower():
+                out.append(k)
+    return out
 
 
 def spec_labels(spec):
@@ -738,7 +750,10 @@ class Interp(object):
         if len(self.mats) >= MAX_MATS:
             return self.skip("full")
         ns = self.pick_ns(a["ns"])
-        self.mats.append(self.build_matrix(a["rows"], ns, "new" if a["how"] == 3 else "require"))
+        rows = with_partners(a["rows"])[:6] if a["partners"] else a["rows"]
+        if a["partners"]:
+            self.ctx.cls("matrix_built_with_case_variant_rows:%s" % ("case_sensitive_ns" if ns.is_case_sensitive else "case_insensitive_ns"))
+        self.mats.append(self.build_matrix(rows, ns, "new" if a["how"] == 3 else "require"))
 
     # -- sources for extend / + / slice assignment --------------------------------------------
     def make_source(self, L, src):
@@ -1975,7 +1990,12 @@ class Interp(object):
         """The typical data set by hand: a tree list whose tree spans the taxa of a matrix (same namespace); both are moved
         to another namespace with one shared taxon_mapping_memo (documented parameter).  Same source taxon => same target
         taxon across both objects; two rows that end on one taxon must be refused, never merged silently."""
-        M = self.pick_mat(a["m"])
+        if a["own"] and len(self.mats) < MAX_MATS + 3:
+            rows = with_partners(a["rows"])[:6] if a["partners"] else a["rows"]
+            M = self.build_matrix(rows, self.pick_ns(a["src"]), "new" if a["how"] == 3 else "require")
+            self.mats.append(M)
+        else:
+            M = self.pick_mat(a["m"])
         X = self.pick_ns(a["ns"])
         S = M.ns
         if X is S:
